@@ -32,6 +32,8 @@ class SolverMgr:
         self.n_bv = 0
         self.n_x = 0
         self.n_x_skipped = 0
+        self.n_escalated = 0
+        self.bl_cache = {}
         self.reset()
 
     def reset(self):
@@ -108,35 +110,92 @@ class SolverMgr:
         m = self.sb.model() if r == z3.sat else None
         return r, m
 
-    def check(self, pc, extra=None):
+    _BITOPS = None
+
+    def bitlevel(self, c):
+        """does the constraint contain bit-level operations (-> bit-vector engine first)?"""
+        k = c.get_id()
+        r = self.bl_cache.get(k)
+        if r is not None:
+            return r[0]
+        if SolverMgr._BITOPS is None:
+            SolverMgr._BITOPS = {z3.Z3_OP_BAND, z3.Z3_OP_BOR, z3.Z3_OP_BXOR, z3.Z3_OP_BNOT, z3.Z3_OP_BSHL,
+                                 z3.Z3_OP_BLSHR, z3.Z3_OP_BASHR, z3.Z3_OP_CONCAT, z3.Z3_OP_BNAND,
+                                 z3.Z3_OP_BNOR, z3.Z3_OP_BXNOR, z3.Z3_OP_ROTATE_LEFT, z3.Z3_OP_ROTATE_RIGHT}
+        bitops = SolverMgr._BITOPS
+        seen = set()
+        stack = [c]
+        res = False
+        while stack:
+            e = stack.pop()
+            i = e.get_id()
+            if i in seen:
+                continue
+            seen.add(i)
+            if z3.is_app(e):
+                kk = e.decl().kind()
+                if kk in bitops:
+                    res = True
+                    break
+                if kk == z3.Z3_OP_EXTRACT:
+                    hi, lo = e.params()
+                    if lo != 0 or (hi + 1) not in (8, 16, 32, 64):
+                        res = True
+                        break
+                stack.extend(e.children())
+        self.bl_cache[k] = (res, c)
+        return res
+
+    def _run(self, engine, pc, extra, timeout_ms):
         from .bv2int import Unsupported
+        if engine == 'int':
+            self.si.set('timeout', timeout_ms)
+            try:
+                r, m = self._check_int(pc, extra)
+            except Unsupported:
+                return None, None
+            self.n_int += 1
+            return r, m
+        if self.sb is not None:
+            self.sb.set('timeout', timeout_ms)
+        self.lit_b(z3.BoolVal(True))
+        self.sb.set('timeout', timeout_ms)
+        r, m = self._check_bv(pc, extra)
+        self.n_bv += 1
+        return r, m
+
+    def check(self, pc, extra=None):
         if len(self.lits_i) + len(self.lits_b) > self.max_lits + 2 * len(pc):
             self.reset()
         self.nq += 1
-        try:
-            r, m = self._check_int(pc, extra)
-            self.n_int += 1
-            engine = 'int'
-        except Unsupported:
-            r, m = self._check_bv(pc, extra)
-            self.n_bv += 1
-            engine = 'bv'
-        if r == z3.unknown and engine == 'int':
-            r, m = self._check_bv(pc, extra)
-            engine = 'bv'
+        bit = (extra is not None and self.bitlevel(extra)) or any(self.bitlevel(c) for c in pc)
+        first, second = ('bv', 'int') if bit else ('int', 'bv')
+        full = self.timeout_ms
+        # portfolio with escalating timeouts: neither engine is good at everything
+        plan = [(first, min(300, full)), (second, min(1500, full)), (first, full), (second, full)]
+        r = z3.unknown
+        m = None
+        engine = None
+        for eng, to in plan:
+            r, m = self._run(eng, pc, extra, to)
+            if r is None:
+                r = z3.unknown
+                continue
+            if r != z3.unknown:
+                engine = eng
+                break
+            self.n_escalated += 1
         if r == z3.unknown:
-            raise Inconclusive('solver returned unknown (%s engine)' % engine)
-        if self.xcheck and engine == 'int' and self.nq % self.xcheck == 0:
-            if self.sb is not None:
-                self.sb.set('timeout', 3000)
-            r2, m2 = self._check_bv(pc, extra)
-            self.sb.set('timeout', self.timeout_ms)
-            if r2 == z3.unknown:
+            raise Inconclusive('solver returned unknown on both engines within %d ms' % full)
+        if self.xcheck and self.nq % self.xcheck == 0:
+            other = 'bv' if engine == 'int' else 'int'
+            r2, m2 = self._run(other, pc, extra, 3000)
+            if r2 is None or r2 == z3.unknown:
                 self.n_x_skipped += 1
             else:
                 self.n_x += 1
                 if r2 != r:
-                    raise MachineryError('solver engines disagree on a query: int=%s bv=%s' % (r, r2))
+                    raise MachineryError('solver engines disagree on a query: %s=%s %s=%s' % (engine, r, other, r2))
         if r == z3.sat and engine == 'int':
             # the model must satisfy the original bit-vector constraints
             for c in pc[-3:]:
@@ -171,6 +230,7 @@ class Executor:
         self.fr = None
         self.fns = {}
         self.fn_by_addr = {}
+        self.vars_cache = {}
         self.global_addr = {}
         self.base_objs = {}
         self.builtins = {}
@@ -1503,22 +1563,62 @@ class Executor:
             self.store(a + i, 1, b)
 
     # ------------------------------------------------------------------ solver / forking
+    def vars_of(self, c):
+        k = c.get_id()
+        r = self.vars_cache.get(k)
+        if r is None:
+            acc = set()
+            seen = set()
+            stack = [c]
+            while stack:
+                e = stack.pop()
+                i = e.get_id()
+                if i in seen:
+                    continue
+                seen.add(i)
+                if z3.is_const(e):
+                    if e.decl().kind() == z3.Z3_OP_UNINTERPRETED:
+                        acc.add(i)
+                else:
+                    stack.extend(e.children())
+            r = (frozenset(acc), c)
+            self.vars_cache[k] = r
+            if len(self.vars_cache) > 200000:
+                self.vars_cache.clear()
+        return r[0]
+
+    def slice_pc(self, pc, extra):
+        """constraints of pc transitively sharing variables with extra (in pc order)"""
+        need = set(self.vars_of(extra))
+        vs = [self.vars_of(c) for c in pc]
+        inn = [False] * len(pc)
+        changed = True
+        while changed:
+            changed = False
+            for i, v in enumerate(vs):
+                if not inn[i] and not need.isdisjoint(v):
+                    inn[i] = True
+                    if not v <= need:
+                        need |= v
+                        changed = True
+        return [c for i, c in enumerate(pc) if inn[i]], need
+
     def query(self, extra, kind):
+        """(sat?, model).  With `extra`, only the independent slice of the path
+        condition that shares variables with it is sent to the solver; the
+        returned model is then completed from the state's cached full model."""
         st = self.st
         t = time.time()
+        pc = st.pc
+        need = None
+        if extra is not None and len(pc) > 3:
+            pc, need = self.slice_pc(pc, extra)
         try:
-            r = self.solver.check(st.pc, extra)
+            sat, m = self.solver.check(pc, extra)
         finally:
             dt = time.time() - t
             if dt > 0.5 and self.opts.get('slowlog'):
-                sys.stderr.write('SLOW %.2fs kind=%s pc=%d extra=%s\n' % (dt, kind, len(st.pc), str(extra)[:300]))
-                if dt > 2:
-                    ss = z3.Solver()
-                    for c in st.pc:
-                        ss.add(c)
-                    if extra is not None:
-                        ss.add(extra)
-                    open('/tmp/slow_%d.smt2' % int(time.time() * 1000), 'w').write(ss.to_smt2())
+                sys.stderr.write('SLOW %.2fs kind=%s pc=%d/%d extra=%s\n' % (dt, kind, len(pc), len(st.pc), str(extra)[:300]))
             s = self.stats
             s.t_solver += dt
             if dt > s.max_query:
@@ -1527,7 +1627,26 @@ class Executor:
                 s.q_assert += 1
             else:
                 s.q_branch += 1
-        return r
+        if sat and need is not None and len(pc) < len(st.pc):
+            m = self.merge_model(m, need)
+        return sat, m
+
+    def merge_model(self, m, need):
+        """model of a slice + the state's full model for the other variables"""
+        st = self.st
+        base = st.model
+        if base is None:
+            sat, base = self.solver.check(st.pc, None)
+            if not sat:
+                raise PathEnd('infeasible')
+            st.model = base
+        nm = z3.Model()
+        for name, var in st.symvals:
+            if var is None or not z3.is_const(var) or var.decl().kind() != z3.Z3_OP_UNINTERPRETED:
+                continue
+            src = m if var.get_id() in need else base
+            nm.update_value(var, src.eval(var, model_completion=True))
+        return nm
 
     def ensure_model(self):
         st = self.st
